@@ -29,6 +29,7 @@ UNIT_DEFAULT_PROPS["U5"] = ["C16"]
 UNIT_DEFAULT_PROPS["U12"] = ["C12"]
 UNIT_DEFAULT_PROPS["U11"] = ["C14"]
 UNIT_DEFAULT_PROPS["U13"] = ["C17"]
+UNIT_DEFAULT_PROPS["U10b"] = ["C09"]
 
 RUNTIME = ["U6", "U6b", "U7", "U8"] + U9
 
@@ -42,9 +43,10 @@ PROPS = {
     "C04": {"units": ["U6b", "U7"] + U9 + U16, "safety_units": ["U6", "U6b", "U7"] + U9 + U16},
     "C05": {"units": ["U6b", "U8"], "safety_units": ["U8"]},
     "C06": {"units": ["U2", "U4", "U6", "U7", "U8"]},
-    "C07": {"units": ["U9c", "U9d", "U9g", "U9h", "U16g", "U16h"]},
-    "C08": {"units": ["U10"] + U9},
-    "C09": {"units": ["U10"], "safety_units": ["U10"]},
+    "C07": {"units": ["U9c", "U9d", "U9g", "U9h", "U16g", "U16h", "U10b"]},
+    "C08": {"units": ["U10", "U10b"] + U9},
+    "C09": {"units": ["U10", "U10b"], "safety_units": ["U10", "U10b"]},
+    "C20": {"units": ["U6", "U6b"]},
     "C10": {"units": U9},
     "C11": {"units": ["U1", "U2", "U3", "U4"], "safety_units": ["U1", "U2", "U3", "U4"]},
     "C12": {"units": ["U2", "U4", "U12"], "safety_units": ["U12"]},
